@@ -161,7 +161,8 @@ def region_angle(region, k, bounds, buf, x):
 
 REGIONS = ["deep", "deep", "buf_lo", "buf_lo", "buf_hi", "buf_hi", "out_lo", "out_hi", "gate_lo", "gate_hi",
            "seam_lo", "seam_hi", "far", "far", "boundary"]
-CONTAINERS = ["f32_col", "f64", "f32", "f64_col", "list"]
+# ("u16" / "i32": whole-degree angles held in an integer array - discretised or table-driven dihedrals)
+CONTAINERS = ["f32_col", "f64", "f32", "f64_col", "list", "f64", "f32_col", "u16", "i32"]
 
 
 @st.composite
@@ -245,6 +246,8 @@ def build_args(case):
         angles = list(a)
     elif c in ("f64", "f32"):
         angles = np.array(a, dtype="float64" if c == "f64" else "float32")
+    elif c in ("u16", "i32"):
+        angles = np.array(np.floor(np.asarray(a, dtype=float)), dtype="uint16" if c == "u16" else "int32")
     elif c in ("f64_col", "f32_col"):       # what phi_rotamers & co. pass: a column of a 2-D array
         base = np.full((len(a), 3), 123.0, dtype="float64" if c == "f64_col" else "float32")
         base[:, 1] = a
